@@ -120,6 +120,16 @@ public:
         auto in_fun = [&](auto i) { return first[i]; };
         auto out_fun = [&](auto cs) { segments.emplace_back(cs); };
         auto last_n = internal::make_segmentation_par(n, Epsilon, in_fun, out_fun);
+        // When the last key is sentinel - 1, the closing point may start a segment of its own at the sentinel. It serves
+        // no valid key and, as in PGMIndex::build, it must not become a key of the next level (whose own closing point
+        // would wrap around)
+        auto drop_sentinel_segment = [&]() {
+            if (segments.back().get_first_x() == sentinel) {
+                segments.pop_back();
+                --last_n;
+            }
+        };
+        drop_sentinel_segment();
         levels_offsets.push_back(levels_offsets.back() + last_n);
 
         // Build upper levels
@@ -127,6 +137,7 @@ public:
             auto offset = levels_offsets[levels_offsets.size() - 2];
             auto in_fun_rec = [&](auto i) { return segments[offset + i].get_first_x(); };
             last_n = internal::make_segmentation(last_n, EpsilonRecursive, in_fun_rec, out_fun);
+            drop_sentinel_segment();
             levels_offsets.push_back(levels_offsets.back() + last_n);
         }
 
